@@ -22,6 +22,24 @@ def pattern_match(eng, args, kwargs):
     return V(t, z3.If(f(pat.z, text.z), t.some(m.z), t.none()))
 
 
+def _pattern_other(kind):
+    def model(eng, args, kwargs):
+        """re.Pattern.fullmatch / search: pure functions of (pattern, text) too, but other relations than match --
+        fullmatch implies match (a match of the whole text starts at its beginning), nothing else is known"""
+        pat, text = args[0], args[1]
+        if isinstance(text.t, TOpt):
+            eng.need(z3.Not(text.t.is_none(text.z)), 'TypeError')
+            text = V(text.t.inner, text.t.val(text.z))
+        f = z3.Function('re_' + kind, TAny('pattern').sort(), TStr.sort(), z3.BoolSort())
+        if kind == 'fullmatch':
+            g = z3.Function('re_match', TAny('pattern').sort(), TStr.sort(), z3.BoolSort())
+            eng.assume(z3.Implies(f(pat.z, text.z), g(pat.z, text.z)))
+        t = TOpt(TAny('match'))
+        m = fresh(TAny('match'), 'match')
+        return V(t, z3.If(f(pat.z, text.z), t.some(m.z), t.none()))
+    return model
+
+
 def sb_matches(eng, pat, text):
     f = z3.Function('re_match', TAny('pattern').sort(), TStr.sort(), z3.BoolSort())
     if isinstance(text.t, TOpt):
@@ -70,6 +88,8 @@ EXTERNS.update({
     'datetime.timedelta': dt_timedelta,
     'timedelta.total_seconds': td_total_seconds,
     'pattern.match': pattern_match,
+    'pattern.fullmatch': _pattern_other('fullmatch'),
+    'pattern.search': _pattern_other('search'),
     'gi.repository.GLib.idle_add': glib_idle_add,
 })
 
